@@ -95,7 +95,7 @@ func (s *Sim) ByzVote(i int, phase lib.Phase, view VR, blk int, proposer int, to
 func (s *Sim) FindCert(phase lib.Phase, blk int, f func(v VR) bool) *lib.QuorumCertificate {
 	for _, c := range s.Certs {
 		if c.Header.Phase == phase && s.BlockID(c.BlockHash, c.ResultsHash) == blk && (f == nil || f(vrOf(c.Header))) {
-			if partial, err := c.Signature.Check(c, s.ValSet); err == nil && !partial {
+			if partial, err := c.Signature.Check(c, s.ValSetAt(c.Header.RootHeight)); err == nil && !partial {
 				return c
 			}
 		}
@@ -233,4 +233,34 @@ func (s *Sim) ElectionCertOfRound(root, round uint64) *lib.QuorumCertificate {
 		}
 	}
 	return nil
+}
+
+// ByzCertForCommittee aggregates the signatures of the given replica votes (all for one payload) into a certificate whose
+// signer bitmap is laid out for the committee of root height `root` — which need not be the root height in the votes'
+// header. Verified under the committee of the certificate's own root height the bitmap then names other validators.
+func (s *Sim) ByzCertForCommittee(votes []*bft.Message, root uint64) *lib.QuorumCertificate {
+	if len(votes) == 0 {
+		return nil
+	}
+	vs := s.ValSetAt(root)
+	mk := vs.MultiKey.Copy()
+	for _, v := range votes {
+		_, idx, err := vs.GetValidatorAndIdx(v.Signature.PublicKey)
+		if err != nil {
+			return nil
+		}
+		if e := mk.AddSigner(v.Signature.Signature, idx); e != nil {
+			return nil
+		}
+	}
+	sig, err := mk.AggregateSignatures()
+	if err != nil {
+		return nil
+	}
+	q := votes[0].Qc
+	c := &lib.QuorumCertificate{Header: proto.Clone(q.Header).(*lib.View), BlockHash: bytes.Clone(q.BlockHash), ResultsHash: bytes.Clone(q.ResultsHash),
+		ProposerKey: bytes.Clone(q.ProposerKey), Signature: &lib.AggregateSignature{Signature: sig, Bitmap: mk.Bitmap()}}
+	info := s.BlockOf[s.BlockID(c.BlockHash, c.ResultsHash)-1]
+	c.Block, c.Results = bytes.Clone(info.Block), proto.Clone(info.Results).(*lib.CertificateResult)
+	return c
 }
